@@ -58,6 +58,7 @@ def stats(pg, cfg):
     with U.Guard() as g:
         v['T'] = float(coal.tree_height.t_max)
         v['sfs'] = np.array(coal.sfs.mean.data, dtype=float)
+        v['fsfs'] = np.array(coal.fsfs.mean.data, dtype=float)
         v['th'] = float(coal.tree_height.mean)
         v['tbl'] = float(coal.total_branch_length.mean)
     return v, g
@@ -75,6 +76,17 @@ def compare_pair(ctx, base, n, big, small):
         ctx.violation('C13:shape', cfg=cfg, n=n, shapes=[list(a.shape), list(b.shape)])
         return
     floor = 1e-13 * max(abs(big['tbl']), 1e-300)
+    # the folded spectrum of the SAME sample is the fold of the unfolded one (every n in the sequence, even and odd): the
+    # projection relation below therefore also holds between the folded spectra
+    fa = big.get('fsfs')
+    if fa is not None:
+        want = np.zeros(n + 1)
+        for i in range(1, n):
+            want[min(i, n - i)] += a[i]
+        if fa.shape != want.shape or not all(abs(x - y) <= 1e-9 * max(abs(x), abs(y)) + floor for x, y in zip(fa, want)):
+            ctx.violation(f'C13:folded-is-fold:{base["model"][0]}', cfg=cfg, n=n, expected=want.tolist(), observed=fa.tolist(),
+                          note='observed = Coalescent(n).fsfs.mean; expected = minor-allele fold of Coalescent(n).sfs.mean')
+            return
     for i in range(1, n - 1):
         rhs = ((n - i) / n) * a[i] + ((i + 1) / n) * a[i + 1]
         tol = 1e-8 * max(abs(b[i]), abs(rhs)) + floor
